@@ -85,6 +85,9 @@ pub struct Known {
     pub msgs: Vec<(String, String)>,         // (continuity, message id)
     pub open_runs: Vec<(String, String, String)>, // (continuity, message id, session id)
     pub counter: u64,
+    /// (continuity, message id) of every acknowledged manual checkpoint, in posting order; a message
+    /// appears once per checkpoint posted for it (cut points may be summarised more than once)
+    pub ckpt_msgs: Vec<(String, String)>,
 }
 
 #[derive(Clone, Debug, Default)]
@@ -251,7 +254,7 @@ pub fn exec(
             }
         }
         OpKind::ManualCkpt => {
-            let Some((c, m)) = pick_msg(known, &cont, rng) else {
+            let Some((c, m)) = pick_ckpt_target(known, &cont, rng) else {
                 return fallback_msg(app, data_dir, conts, known, rng, tag);
             };
             let req = CompactionCheckpointCumulativeV1Request {
@@ -264,7 +267,8 @@ pub fn exec(
                 origin,
             };
             match store.compaction_checkpoint_cumulative_v1(&c, req) {
-                Ok((id, ..)) => {
+                Ok((id, _, _, to_message_id, _)) => {
+                    known.ckpt_msgs.push((c.clone(), to_message_id));
                     res.cont = c;
                     res.ok = true;
                     res.acked.push(id);
@@ -381,6 +385,35 @@ fn pick_msg(known: &Known, cont: &str, rng: &mut Rng) -> Option<(String, String)
     } else {
         Some(known.msgs[rng.usize(known.msgs.len())].clone())
     }
+}
+
+/// Target of a manual checkpoint. Nothing forbids summarising a cut point again (a corrected summary
+/// replacing a first attempt) or posting checkpoints in any order of cut points, so histories contain
+/// both: about a third of the checkpoints go to a message that has one already, some go to a message
+/// EARLIER than the one checkpointed last (decreasing `to_seq` in stream order), the rest to any message
+/// (recent ones preferred).
+fn pick_ckpt_target(known: &Known, cont: &str, rng: &mut Rng) -> Option<(String, String)> {
+    let done: Vec<&(String, String)> = known.ckpt_msgs.iter().filter(|(c, _)| c == cont).collect();
+    if !done.is_empty() {
+        match rng.below(12) {
+            // the cut point checkpointed last, again (adjacent or nearly adjacent frames)
+            0 | 1 => return Some((*done.last().unwrap()).clone()),
+            // any cut point checkpointed before, again (frames far apart in the stream)
+            2 | 3 => return Some(done[rng.usize(done.len())].clone()),
+            // an earlier message than the one checkpointed last
+            4 | 5 => {
+                let last = done.last().unwrap();
+                let mine: Vec<&(String, String)> = known.msgs.iter().filter(|(c, _)| c == cont).collect();
+                if let Some(pos) = mine.iter().position(|m| m.1 == last.1) {
+                    if pos > 0 {
+                        return Some(mine[rng.usize(pos)].clone());
+                    }
+                }
+            }
+            _ => {}
+        }
+    }
+    pick_msg(known, cont, rng)
 }
 
 fn selector(known: &Known, cont: &str, rng: &mut Rng) -> (Option<String>, Option<u64>) {
